@@ -416,6 +416,18 @@ let check_tokens (cfg : econfig) (ops : eop list) (tr : tok list) : unit =
        | OLose (i, u) -> Hashtbl.replace lost_procs (zi i, u) ()
        | OCrash i -> Hashtbl.filter_map_inplace (fun (i', _) v -> if i' = zi i then None else Some v) lost_procs
        | _ -> ());
+    (* C07 / C11: a failing step / timer function sends its consumer through the error exit like any other error — whatever the
+       error wraps: the process reaches its back-off wait (a TW token, whatever its outcome) unless the failure was answered by
+       the error-count pause (the handler then returns nil) *)
+    (if on "C07" || on "C11" then
+       match op with
+       | OStep (_, (EStep _ | EInserter _), pl) when not (List.exists (fun (_, f) -> f = FCrash) pl) ->
+         let user_failed = List.exists (function TUser (fu, _, _, _, UErr _) -> (match fu with UFStep _ | UFTimer _ -> true | _ -> false) | _ -> false) seg in
+         let paused_ok = List.exists (function TStore (_, r, ROk) -> r.r_state = RSPaused | _ -> false) seg in
+         if user_failed && not paused_ok && not (List.exists (function TCall (KTW, _, _, _) -> true | _ -> false) seg)
+            && not (List.exists (function TApi _ -> true | _ -> false) seg) then
+           bad (if on "C07" then "C07" else "C11") "a step / timer function returned an error, yet its consumer never reached the error back-off (the failure was taken for a lost role: the event is re-handled at once)"
+       | _ -> ());
     (* C11: every store / stream / timeout-store call of a background process is made under the context its role scheduler
        handed out (the harness marks a call that carried any other context with API=-2) *)
     (if on "C11" || on "C12" then
